@@ -282,6 +282,9 @@ def cases(rng, tier):
     out.append(gen_case(rng, tier, {'layout': 'onedir', 'flatten': True, 'n': 2}))
     out.append(gen_case(rng, tier, {'layout': 'common', 'flatten': True, 'n': 3}))
     out.append(gen_case(rng, tier, {'thin': True, 'layout': 'top', 'n': 2}))
+    # name pairs whose order changes under flattening (the index columns of their matches must be swapped on import)
+    for _ in range(n // 12):
+        out.append(gen_case(rng, tier, {'layout': 'flip', 'flatten': True, 'n': rng.choice([3, 4, 5])}))
     while len(out) < n:
         out.append(gen_case(rng, tier, {'thin': rng.random() < 0.08}))
     return out
@@ -601,9 +604,14 @@ def compare(case, io, mo):
     obs_i = sorted([i, n, f] for i, _, n, f in back['observations'] or [])
     if obs_i != obs_m:
         return f'imported observations: impl {obs_i} model {obs_m}'
-    mm = {} if mi['matches'] is None else {a + '|' + b: rows for a, b, rows in mi['matches']}
-    if (io['back_matches'] or {}) != mm:
-        return f'imported matches: impl {io["back_matches"]} model {mm}'
+    # blocks are written in the iteration order of a Python set; when two exported pairs collide on the same imported pair
+    # (colliding flattened names, outside the statement) either block may be the one that stays
+    mm = {}
+    for a, b, rows in mi['matches'] or []:
+        mm.setdefault(a + '|' + b, []).append(rows)
+    bm = io['back_matches'] or {}
+    if sorted(bm) != sorted(mm) or any(bm[k_] not in mm[k_] for k_ in bm):
+        return f'imported matches: impl {bm} model {mm}'
     return None
 
 
@@ -768,6 +776,11 @@ def distribution(cases_):
             bump('image-with-<2-keypoints')
         if c['flatten'] and sub_root([r[2] for r in c['dataset']['records_camera']]):
             bump('flatten+common-directory')
+        if c['flatten']:
+            for pair in c['match_rows']:
+                a, b = pair.split('|')
+                if (a < b) != (a.replace('/', '_') < b.replace('/', '_')):
+                    bump('match-pair-whose-order-flips')
     return dist
 
 
